@@ -3,6 +3,8 @@
 
 mod common;
 mod order;
+mod problems;
+mod dense;
 
 fn main() {
     let args: Vec<String> = std::env::args().collect();
@@ -13,6 +15,7 @@ fn main() {
     let rest = &args[2..];
     match args[1].as_str() {
         "order-probe" => order::run(rest),
+        "dense-check" => dense::run(rest),
         other => {
             eprintln!("unknown subcommand {other}");
             std::process::exit(2);
